@@ -90,6 +90,48 @@ pub fn gen_c02(rng: &mut Rng, thorough: bool) -> Vec<Tagged> {
         out.push((format!("{}-boundary-fwd", kind), Case::Net(spec.clone(), NetCmd::Forward(x.clone()))));
         out.push((format!("{}-boundary-fwd-flatinput", kind), Case::Net(spec, NetCmd::Forward(flat_version(&x)))));
     }
+    // chains of padded convolutions whose PADDED inputs have the same size although the paddings
+    // differ (6x6 p0 -> 4x4 p1; 2x2 p2 -> 4x4 p1 -> 4x4 p1 ...): every layer pads ITS input with zeros,
+    // whatever was computed before on the same thread; consecutive cases repeat the pattern
+    for r in 0..(if thorough { 24 } else { 8 }) {
+        let pads: &[usize] = [&[0usize, 1][..], &[2, 1], &[1, 0, 1], &[2, 1, 1], &[3, 2]][r % 5];
+        // with 3x3 kernels (stride 1): in_{k+1} = in_k + 2 p_k - 2; choose in_0 so that in_k + 2 p_k is constant
+        let total = 6usize;
+        let in0 = total - 2 * pads[0];
+        let mut cur = Sh::Sp(1, in0, in0);
+        let input = cur;
+        let mut spec = NetSpec::new(cur.to_shape());
+        let mut ws = vec![];
+        let mut ok = true;
+        for &p in pads {
+            let (_, h, _) = as_spatial(cur).unwrap();
+            if h + 2 * p != total {
+                ok = false;
+                break;
+            }
+            let c = Simple::Conv { filters: 1, kernel: (3, 3), stride: (1, 1), padding: (p, p), dilation: (1, 1), act: Act::Linear, dropout: None };
+            ws.push(LW::One(rand_w(rng, &c, cur, 1)));
+            cur = out_shape(&c, cur).unwrap();
+            spec.layers.push(LayerSpec::One(c));
+        }
+        if !ok {
+            continue;
+        }
+        spec.weights = Some(ws);
+        for _ in 0..2 {
+            out.push(("conv-chain-equal-padded-size".into(), Case::Net(spec.clone(), NetCmd::Forward(rand_input(rng, input, 0)))));
+        }
+    }
+    // pointwise (1x1, stride 1, dilation 1) convolutions WITH padding: the zero border is part of the output
+    for (p, inp) in [((1usize, 2usize), Sh::Sp(2, 4, 5)), ((2, 0), Sh::Sp(1, 3, 3)), ((0, 1), Sh::Sp(3, 2, 2)), ((1, 1), Sh::Sp(2, 1, 1))] {
+        let c = Simple::Conv { filters: 3, kernel: (1, 1), stride: (1, 1), padding: p, dilation: (1, 1), act: Act::Linear, dropout: None };
+        let mut spec = NetSpec::new(inp.to_shape());
+        spec.weights = Some(vec![LW::One(rand_w(rng, &c, inp, 1))]);
+        spec.layers.push(LayerSpec::One(c));
+        let x = rand_input(rng, inp, 0);
+        out.push(("conv-pointwise-padded-fwd".into(), Case::Net(spec.clone(), NetCmd::Forward(x.clone()))));
+        out.push(("conv-pointwise-padded-shapes".into(), Case::Net(spec, NetCmd::Shapes)));
+    }
     out
 }
 
@@ -187,6 +229,23 @@ pub fn gen_c08(rng: &mut Rng, thorough: bool) -> Vec<Tagged> {
         let mut spec = NetSpec::new(inp.to_shape());
         spec.layers.push(LayerSpec::One(l));
         out.push(("first-layer-reject".into(), Case::Net(spec, NetCmd::Shapes)));
+    }
+    // (e0) pointwise (1x1, stride 1, dilation 1) convolutions and deconvolutions WITH padding: announced = produced
+    for (p, inp) in [((1usize, 2usize), Sh::Sp(2, 4, 5)), ((2, 0), Sh::Sp(1, 3, 3)), ((0, 1), Sh::Sp(3, 2, 2)), ((1, 1), Sh::Sp(2, 1, 1)), ((2, 2), Sh::Sp(1, 1, 4))] {
+        let c = Simple::Conv { filters: 3, kernel: (1, 1), stride: (1, 1), padding: p, dilation: (1, 1), act: Act::Linear, dropout: None };
+        let mut spec = NetSpec::new(inp.to_shape());
+        spec.weights = Some(vec![LW::One(rand_w(rng, &c, inp, 1))]);
+        spec.layers.push(LayerSpec::One(c.clone()));
+        out.push(("conv-pointwise-padded-shapes".into(), Case::Net(spec.clone(), NetCmd::Shapes)));
+        out.push(("conv-pointwise-padded-produced".into(), Case::Net(spec.clone(), NetCmd::Forward(rand_input(rng, inp, 0)))));
+        // followed by a dense layer: the flattened length is the announced one
+        if let Some(osh) = out_shape(&c, inp) {
+            let d = Simple::Dense { out: 2, act: Act::Linear, bias: false, dropout: None };
+            let mut sp2 = spec.clone();
+            sp2.weights.as_mut().unwrap().push(LW::One(rand_w(rng, &d, Sh::Flat(osh.numel()), 1)));
+            sp2.layers.push(LayerSpec::One(d));
+            out.push(("conv-pointwise-padded-then-dense".into(), Case::Net(sp2, NetCmd::Forward(rand_input(rng, inp, 0)))));
+        }
     }
     // (e) flat -> MULTI-channel spatial transitions (only reachable through reshape: a flattened
     //     multi-filter output looped back into its spatial layer, a skip from a flat tensor into a
@@ -307,6 +366,23 @@ pub fn gen_c01(rng: &mut Rng, thorough: bool) -> Vec<Tagged> {
         spec.weights = Some(vec![LW::One(rand_w(rng, &d, Sh::Flat(n), 1))]);
         spec.layers.push(LayerSpec::One(d));
         out.push(("dense-wide-layer-bwd".into(), Case::Net(spec, NetCmd::LayerBackward(0, rand_input(rng, Sh::Flat(n), 2), rand_input(rng, Sh::Flat(3), 1)))));
+    }
+    // many OUTPUTS (the input gradient goes through the transposed weight matrix), layer level and inside a network
+    for &m in &[64usize, 65, 70, 130] {
+        let d = Simple::Dense { out: m, act: Act::Tanh, bias: true, dropout: None };
+        let mut spec = NetSpec::new(Sh::Flat(5).to_shape());
+        spec.weights = Some(vec![LW::One(rand_w(rng, &d, Sh::Flat(5), 1))]);
+        spec.layers.push(LayerSpec::One(d.clone()));
+        out.push(("dense-many-outputs-layer-bwd".into(), Case::Net(spec, NetCmd::LayerBackward(0, rand_input(rng, Sh::Flat(5), 2), rand_input(rng, Sh::Flat(m), 1)))));
+        let d0 = Simple::Dense { out: 5, act: Act::Sigmoid, bias: true, dropout: None };
+        let d2 = Simple::Dense { out: 2, act: Act::Linear, bias: false, dropout: None };
+        let mut net = NetSpec::new(Sh::Flat(3).to_shape());
+        net.weights = Some(vec![LW::One(rand_w(rng, &d0, Sh::Flat(3), 2)), LW::One(rand_w(rng, &d, Sh::Flat(5), 2)), LW::One(rand_w(rng, &d2, Sh::Flat(m), 2))]);
+        net.layers.push(LayerSpec::One(d0));
+        net.layers.push(LayerSpec::One(d));
+        net.layers.push(LayerSpec::One(d2));
+        net.obj = Obj::MSE;
+        out.push(("net-bwd-wide-hidden-layer".into(), Case::Net(net, NetCmd::Backward(rand_input(rng, Sh::Flat(3), 2), rand_target(rng, Sh::Flat(2), Obj::MSE)))));
     }
     // two feedback blocks of different depth and loop count in one network
     for r in 0..(if thorough { 40 } else { 8 }) {
